@@ -17,18 +17,14 @@ def parseCls : String → Option Cls
 
 def intsStr (l : List Int) : String := ",".intercalate (l.map toString)
 
-/-- Leaving out at most `k` gaps, the i-th remaining gap is at least the i-th wait of the schedule
-(1 % tolerance; microseconds). Greedy: a gap is left out only when it is too short for its slot;
-leaving out an earlier, long enough one instead never helps (the schedule does not decrease), so
-this decides "some choice of at most `k` gaps works". The schedule is constant from its 14th entry
+/-- Leaving out at most `k` gaps (the immediate retries), the i-th remaining gap is at least the
+i-th wait of the schedule (1 % tolerance; microseconds). Decided greedily by
+`Retry.greedyFollows`, which `Props/C17.greedy_decides_some_choice` proves equivalent to "some
+choice of at most `k` gaps works". The schedule is constant from its 14th entry
 (`schedule_constant_from_14`), which keeps a request storm of 10^5 attempts cheap to judge. -/
-def followsScheduleFrom (k : Nat) : List Nat → Nat → Nat → Bool
-  | [], _, _ => true
-  | g :: gs, i, d =>
-    if g * 100 ≥ ((GV.Retry.sched (min i 14)) / 1000).toNat * 99 then followsScheduleFrom k gs (i + 1) d
-    else if d < k then followsScheduleFrom k gs i (d + 1) else false
+def longEnough (i g : Nat) : Bool := g * 100 ≥ ((GV.Retry.sched (min i 14)) / 1000).toNat * 99
 
-def followsSchedule (k : Nat) (gaps : List Nat) : Bool := followsScheduleFrom k gaps 0 0
+def followsSchedule (k : Nat) (gaps : List Nat) : Bool := greedyFollows longEnough k gaps 0 0
 
 /-- `step <b> <implNext> <elapsedNs>` — one real `sleepAndIncreaseBackoff(ctx, b)` with a live context.
     `cancel <b> <implNext> <err>` — the same with a context that is cancelled while waiting.
